@@ -379,6 +379,13 @@ func genC05(g *G, sc *Scenario, tier string) {
 					ops = append(ops, Op{K: "txn", Parts: parts, M: map[string]any{"invalid": true}})
 					continue
 				}
+				if g.P(0.08) {
+					// one part carries an entity the store must refuse (nil reference): the transaction is rejected as a whole
+					k := g.Intn(len(parts))
+					parts[k].Ents = append(parts[k].Ents, Ent{"id": MkE + "bad" + mark, "props": map[string]any{}, "refs": map[string]any{MkS + "p0": nil}})
+					ops = append(ops, Op{K: "txn", Parts: parts, M: map[string]any{"invalid": true}})
+					continue
+				}
 				if g.P(sc0(sc, "pCoreInTxn", 0.008)) {
 					parts = append(parts, Part{DS: "core.Dataset", Ents: []Ent{{"id": MkE + "x", "props": map[string]any{MkS + "w": mark}, "refs": map[string]any{}}}})
 				}
